@@ -939,6 +939,19 @@ func ruleX8(p *Prog, r *Report) {
 				if b != notOk && canReachBlock(okB, b) {
 					return // rejoined
 				}
+				// the value is looked at again on this path (generic handling of the other members, or a further downcast)
+				for _, y := range b.Instrs {
+					if y == ssa.Instruction(ta) {
+						continue
+					}
+					for _, op := range y.Operands(nil) {
+						if *op != nil && (*op == ta.X || canon(*op) == canon(ta.X)) {
+							if _, isDbg := y.(*ssa.DebugRef); !isDbg {
+								return
+							}
+						}
+					}
+				}
 				last := b.Instrs[len(b.Instrs)-1]
 				switch x := last.(type) {
 				case *ssa.Return:
